@@ -1,7 +1,7 @@
 (* Extraction of the executable models to OCaml.  ExtrOcamlBasic only: bool, option, list,
    prod, unit, sumbool are mapped to OCaml's; N, positive, nat, Z stay the extracted datatypes. *)
 Require Import ExtrOcamlBasic.
-From SKV Require Import Params Base.Crc32 Codec.Wal Codec.WalInst Base.Lex Txn.WriteSet Spec.Store Spec.Cursor Spec.Machine Lsm.CompactKey Misc.Lock Misc.LockInst Txn.RangeIter Conc.Oracle Conc.CommitSeq Misc.OMap Misc.BptKey Misc.Pages Misc.BptInst Codec.IKey Codec.Separator Codec.Bloom Codec.Table Codec.Regions Codec.RegionsInst Crash.Fail Crash.FailParams Crash.FailInst Conc.Pipeline Conc.PipelineExplore Crash.Proto Codec.VlogParams Codec.VlogPtr Lsm.Vlog Lsm.VlogInst Lsm.VlogOpen Lsm.LevelsParams Lsm.Levels Lsm.Checkpoint Lsm.CheckpointParams Lsm.CheckpointInst.
+From SKV Require Import Params Base.Crc32 Codec.Wal Codec.WalInst Base.Lex Txn.WriteSet Spec.Store Spec.Cursor Spec.Machine Lsm.CompactKey Misc.Lock Misc.LockInst Txn.RangeIter Conc.Oracle Conc.CommitSeq Misc.OMap Misc.BptKey Misc.Pages Misc.BptInst Codec.IKey Codec.Separator Codec.Bloom Codec.Table Codec.Regions Codec.RegionsInst Crash.Fail Crash.FailParams Crash.FailInst Conc.Pipeline Conc.PipelineExplore Crash.Proto Codec.VlogParams Codec.VlogPtr Lsm.Vlog Lsm.VlogInst Lsm.VlogOpen Lsm.ArenaParams Lsm.Arena Lsm.LevelsParams Lsm.Levels Lsm.Checkpoint Lsm.CheckpointParams Lsm.CheckpointInst.
 Extraction Language OCaml.
 Extraction "skv_model.ml"
   WalInst.wal_sessions WalInst.wal_read_all WalInst.wal_repair WalInst.wal_known_unparsed_tail WalInst.wal_params_ok WalInst.WB
@@ -40,6 +40,7 @@ Extraction "skv_model.ml"
   VlogInst.vlogi_step VlogInst.vlogz_step VlogInst.vlogi_resolve VlogInst.vlogz_resolve VlogInst.vlogi_append VlogInst.vlogi_read VlogInst.vlogi_entry
   VlogInst.vlogi_vs_append VlogInst.vlogi_vs_get VlogInst.vlogi_vs_get_rule VlogInst.vlogi_ds_step VlogInst.vlogi_run VlogInst.vlogz_run
   Vlog.cut_file Vlog.update_file VlogParams.VLOG_CACHE_HIT_CHECKED
+  Arena.ar_bound Arena.ar_mem_add Arena.ar_empty_n ArenaParams.ARENA_BOUND_HAS_UNUSED_TOWER ArenaParams.ARENA_MAX_HEIGHT
   VlogOpen.vopen_file VlogOpen.vwriter_open VlogParams.VLOG_OPEN_EMPTIES_TORN_HEADER
   VlogParams.VP_SIZE VlogParams.VL_BIT_VALUE_POINTER VlogParams.VL_VERSION VlogParams.VP_VERSION VlogParams.VLOG_FORMAT_VERSION
   Levels.Lv.get Levels.Lv.get_hit Levels.Lv.view_of_all Levels.Lv.current Levels.Lv.current_sel Levels.Lv.rules_okb Levels.Lv.srules_okb Levels.Lv.step Levels.Lv.st0
